@@ -1484,6 +1484,11 @@ fn one_history(out: &mut Out, opts: &Opts, rng: &mut Rng, base: &Path, hno: u64,
     }
     let (h, mut builder, order, env, refjob, exit, log, rr) = chosen.unwrap();
     let delivered: HashSet<usize> = order.iter().copied().collect();
+    for b in &h.blks {
+        if b.id != 0 && b.block.transactions().len() > 1 {
+            out.count("block-with-committed-tx");
+        }
+    }
 
     // ---- Step A: the reference case
     out.begin_case(&format!("ref el={} hist={} n={}", h.el, hno, h.blks.len() - 1));
